@@ -35,7 +35,8 @@ func (s *stdSvc) gTargetVia(rt *rapid.T, label string) AVia {
 	ua := rapid.IntRange(0, 3).Draw(rt, label+".ua")
 	switch rapid.IntRange(0, 5).Draw(rt, label+".hostkind") {
 	case 0:
-		v.Host = []string{"ua-a.test", "ua-b.test"}[ua%2]
+		// (names as the host table writes them, one of them with capital letters)
+		v.Host = []string{"ua-a.test", "ua-b.test", "UA-C.Corp.test", "ua-b.test"}[ua]
 	case 1:
 		v.Host = rapid.SampledFrom([]string{"unknown-host.example", "nowhere.invalid"}).Draw(rt, label+".unres")
 	default:
